@@ -324,6 +324,13 @@ func (r *Raft) onInstallSnapRequest(req *installSnapReq, c *conn) (rpcResult, er
 		}
 		termsMatched := metaTerm == meta.term
 		if termsMatched {
+			// entries <=meta.index are committed and our log has them:
+			// fsm must apply them before they are removed. fsm reads them
+			// from log, so wait until it has applied them
+			r.setCommitIndex(meta.index)
+			r.applyCommitted(nil)
+			r.lastApplied()
+
 			// remove <=meta.index, but retain following it
 			if err = r.compactLog(meta.index); err != nil {
 				return unexpectedErr, err
